@@ -52,6 +52,16 @@ def hooks():
         return Enum('Option', If(has, BitVecVal(1, 64), BitVecVal(0, 64)), {'Some': [box(Str(SubString(s, 0, Length(s) - 1)))], 'None': []})
 
     def h_starts_with(ex, st, callee, args): return PrefixOf(S(ex, args[1]), S(ex, args[0]))
+    def h_ends_with(ex, st, callee, args): return SuffixOf(S(ex, args[1]), S(ex, args[0]))
+    def h_contains(ex, st, callee, args): return z3.Contains(S(ex, args[0]), S(ex, args[1]))
+
+    def h_len(ex, st, callee, args):
+        # Rust's len() counts UTF-8 bytes, Z3's Length counts characters: equal on ASCII, which the path is restricted to (recorded)
+        s = S(ex, args[0])
+        models.USED.add('str::len as the character count (exact for ASCII strings; counterexamples are replayed natively)')
+        return z3.Int2BV(Length(s), 64)
+
+    def h_is_empty(ex, st, callee, args): return Length(S(ex, args[0])) == 0
     def h_deref(ex, st, callee, args): return args[0] if isinstance(ex.deref(args[0]), (Str, ListModel)) else NotImplemented
     def h_as_str(ex, st, callee, args): return args[0]
 
@@ -66,6 +76,8 @@ def hooks():
     return [
         (r'^<&?str as PartialEq(?:<&?str>)?>::eq$|^<&?(?:std::string::)?String as PartialEq<&?str>>::eq$|^<&?str as PartialEq<&?(?:std::string::)?String>>::eq$', h_eq),
         (r'^(?:core::)?str::<impl str>::strip_suffix::<char>$', h_strip_suffix), (r'^(?:core::)?str::<impl str>::starts_with::<&str>$', h_starts_with),
+        (r'^(?:core::)?str::<impl str>::ends_with::<&str>$', h_ends_with), (r'^(?:core::)?str::<impl str>::contains::<&str>$', h_contains),
+        (r'^(?:core::)?str::<impl str>::len$|^(?:std::string::)?String::len$', h_len), (r'^(?:core::)?str::<impl str>::is_empty$|^(?:std::string::)?String::is_empty$', h_is_empty),
         (r'^<(?:std::string::)?String as (?:std::ops::)?Deref>::deref$', h_deref), (r'^(?:std::string::)?String::as_str$', h_as_str),
         (r'^(?:std::sync::atomic::)?(?:AtomicUsize|Atomic::<usize>)::fetch_add$', h_fetch_add), (r'^<Arc<(?:std::sync::atomic::)?(?:AtomicUsize|Atomic<usize>)> as (?:std::ops::)?Deref>::deref$', h_arc_deref),
     ]
